@@ -41,6 +41,7 @@ var objCatalogue = []struct{ name, decl string }{
 	{"Verif7::I", `Object[{name => 'Verif7::I', attributes => {a => Any, b => Any}, equality => [b, a], equality_include_type => false}]`},
 	{"Verif7::J", `Object[{name => 'Verif7::J', attributes => {b => Any, a => {type => Any, value => undef}}, equality => [a, b], equality_include_type => false}]`},
 	{"Verif7::K", `Object[{name => 'Verif7::K', attributes => {a => Any}, equality_include_type => false}]`},
+	{"Verif7::L", `Object[{name => 'Verif7::L', attributes => {a => Any, b => Any}, equality => [b], equality_include_type => false}]`},
 }
 
 // objDescs: the generator's OWN statement of each type's descriptor (name, include type, names by position, equality positions,
@@ -64,6 +65,7 @@ var objDescs = map[string]struct {
 	"Verif7::I":  {false, []string{"a", "b"}, []int{1, 0}, 2, nil},
 	"Verif7::J":  {false, []string{"b", "a"}, []int{1, 0}, 1, []string{"(u)"}},
 	"Verif7::K":  {false, []string{"a"}, []int{0}, 1, nil},
+	"Verif7::L":  {false, []string{"a", "b"}, []int{1}, 2, nil},
 }
 
 func ensureObjCatalogue(c px.Context) {
@@ -218,7 +220,7 @@ func objS(name string, vals ...sx.Sexp) sx.Sexp {
 func objUniverse() []sx.Sexp {
 	one, two, a, nan := iv(1), iv(2), sv("a"), fv(math.NaN())
 	u := []sx.Sexp{}
-	for _, n := range []string{"Verif7::A", "Verif7::A2", "Verif7::B", "Verif7::E", "Verif7::F", "Verif7::G", "Verif7::I"} {
+	for _, n := range []string{"Verif7::A", "Verif7::A2", "Verif7::B", "Verif7::E", "Verif7::F", "Verif7::G", "Verif7::I", "Verif7::L"} {
 		u = append(u, objS(n, one, two), objS(n, two, one), objS(n, one, a), objS(n, one, one))
 	}
 	u = append(u,
